@@ -3772,17 +3772,25 @@ class BoutMesh(Mesh):
                 ixseps2 = self.nx
             elif len(self.x_startinds) == 4:
                 # Two separatrices
-                if self.equilibrium.double_null_type == "lower":
-                    ixseps1 = self.x_startinds[1]
-                    ixseps2 = self.x_startinds[2]
-                elif self.equilibrium.double_null_type == "upper":
-                    ixseps1 = self.x_startinds[2]
-                    ixseps2 = self.x_startinds[1]
-                else:
+                if self.equilibrium.double_null_type not in ("lower", "upper"):
                     raise ValueError(
                         'Expected either double_null_type=="lower" or '
                         'double_null_type="upper" when there are two separatrices.'
                     )
+                # ixseps1 belongs to the X-point at jyseps1_1/jyseps2_2, which is the
+                # lower X-point unless the y-indexing starts at the upper outer target
+                first_xpoint_is_primary = self.equilibrium.double_null_type == "lower"
+                if (
+                    "start_at_upper_outer" in self.equilibrium.user_options
+                    and self.equilibrium.user_options.start_at_upper_outer
+                ):
+                    first_xpoint_is_primary = not first_xpoint_is_primary
+                if first_xpoint_is_primary:
+                    ixseps1 = self.x_startinds[1]
+                    ixseps2 = self.x_startinds[2]
+                else:
+                    ixseps1 = self.x_startinds[2]
+                    ixseps2 = self.x_startinds[1]
             else:
                 raise ValueError("More than two separatrices not supported by BoutMesh")
 
